@@ -482,6 +482,88 @@ func main() {
 		// The permessage-deflate negotiator is reused across upgrades through Reset, and its owner
 		// may reassign Parameters in between: after Reset it answers, and reports, exactly like a
 		// fresh one configured the same way - whatever it negotiated, refused or failed on before.
+		// The README's receive loop with compression: one wsutil.Reader for the connection and one
+		// flate reader Reset *onto that same Reader* for every compressed message. The earlier
+		// message may have been read to its end, read in part and discarded, or not read at all
+		// (Discard), fragmented or not: the next message comes out as from a fresh flate reader.
+		r.Part("E5c-flate-reader-reset-onto-the-same-source", func(t *explore.T) {
+			compress := func(s string) []byte {
+				var b bytes.Buffer
+				w := wsflate.NewWriter(&b, func(w io.Writer) wsflate.Compressor { f, _ := flate.NewWriter(w, 6); return f })
+				w.Write([]byte(s))
+				w.Flush()
+				return b.Bytes()
+			}
+			texts := []string{"Hello", strings.Repeat("first message ", 40), ""}
+			for _, side := range []streams.Side{streams.Server, streams.Client} {
+				for ti, t1 := range texts {
+					for _, frags := range []int{1, 2, 3} {
+						for _, consume := range []string{"ReadAll", "Read(3)+Discard", "Discard"} {
+							for _, withPing := range []bool{false, true} {
+								side, t1, frags, consume, withPing, ti := side, t1, frags, consume, withPing, ti
+								t.Do(func() string {
+									return fmt.Sprintf("%s compressed text #%d in %d fragment(s) (ping between=%v) taken by %s, then a second compressed message, flate reader Reset onto the same wsutil.Reader", side, ti, frags, withPing, consume)
+								}, func() *explore.Fail {
+									second := "second message, " + strings.Repeat("again ", 20)
+									mk := func(i int, op byte, fin bool, rsv byte, p []byte) []byte {
+										return streams.Frame{H: refmodel.Hdr{Fin: fin, Rsv: rsv, Op: op, Masked: side == streams.Server, Mask: streams.Masks[i%3]}, Payload: p}.Wire()
+									}
+									var data []byte
+									c1 := compress(t1)
+									for k := 0; k < frags; k++ {
+										op, rsv := byte(0), byte(0)
+										if k == 0 {
+											op, rsv = 1, 4
+										}
+										data = append(data, mk(k, op, k == frags-1, rsv, c1[k*len(c1)/frags:(k+1)*len(c1)/frags])...)
+										if withPing && k != frags-1 {
+											data = append(data, mk(k, 9, true, 0, []byte("pi"))...)
+										}
+									}
+									data = append(data, mk(5, 1, true, 4, compress(second))...)
+									var ms wsflate.MessageState
+									rd := &wsutil.Reader{Source: env.NewSrc(data), State: drivers.State(side) | ws.StateExtended, Extensions: []wsutil.RecvExtension{&ms},
+										OnIntermediate: func(h ws.Header, r io.Reader) error { _, e := io.Copy(io.Discard, r); return e }}
+									fr := wsflate.NewReader(nil, func(r io.Reader) wsflate.Decompressor { return flate.NewReader(r) })
+									if _, err := rd.NextFrame(); err != nil {
+										return explore.Failf("harness-first-frame", "%v", err)
+									}
+									fr.Reset(rd)
+									switch consume {
+									case "ReadAll":
+										p, err := io.ReadAll(fr)
+										if err != nil || string(p) != t1 {
+											return explore.Failf("first-message-wrong", "%q %v", p, err)
+										}
+									case "Read(3)+Discard":
+										fr.Read(make([]byte, 3))
+										if err := rd.Discard(); err != nil {
+											return explore.Failf("harness-discard", "%v", err)
+										}
+									default:
+										if err := rd.Discard(); err != nil {
+											return explore.Failf("harness-discard", "%v", err)
+										}
+									}
+									h, err := rd.NextFrame()
+									if err != nil || !ms.IsCompressed() {
+										return explore.Failf("second-message-header", "%+v err=%v compressed=%v", h, err, ms.IsCompressed())
+									}
+									fr.Reset(rd)
+									p, err := io.ReadAll(fr)
+									if err != nil || string(p) != second {
+										return explore.Failf("flate-reader-reset-onto-the-same-source-loses-the-next-message", "got %q err=%v", p, err)
+									}
+									return nil
+								})
+							}
+						}
+					}
+				}
+			}
+			t.Outcome("as-fresh")
+		})
+
 		r.Part("E5b-wsflate.Extension.Reset", func(t *explore.T) {
 			type P = wsflate.Parameters
 			var ps []P
